@@ -67,3 +67,20 @@ Example C02_stmt_default_example_roundtrip :
   parse_file (ml_print_file 0 false ex_file) = Some ex_file /\
   parse_file (ml_print_file 4 true ex_file) = Some ex_file.
 Proof. exact ex_file_default_roundtrip. Qed.
+
+(* ------------------------------------------------------------------ level S, DEFAULT mode: idempotence
+   with canonical positions: print (canon (parse (print (canon t)))) = print (canon t), for ALL
+   well-formed trees, every Indent n, both BinaryNextLine settings (ml_print_file applies canon_file).
+   That the real parser assigns exactly canon_file's lines to the printed text is checked by the code
+   leg (lines of the real re-parse = canon_file), not proved: the model parser carries no positions. *)
+From Verif Require Import Proofs.MiniRoundtripML.
+
+Theorem C02_stmt_idempotent_default_partial : forall ind bnl t t', wf_file t ->
+  parse_file (ml_print_file ind bnl t) = Some t' -> ml_print_file ind bnl t' = ml_print_file ind bnl t.
+Proof. exact stmt_idempotent_default. Qed.
+Print Assumptions C02_stmt_idempotent_default_partial.
+
+Theorem C02_stmt_text_fixpoint_default_partial : forall ind bnl t, wf_file t ->
+  option_map (ml_print_file ind bnl) (parse_file (ml_print_file ind bnl t)) = Some (ml_print_file ind bnl t).
+Proof. exact stmt_text_fixpoint_default. Qed.
+Print Assumptions C02_stmt_text_fixpoint_default_partial.
